@@ -26,6 +26,17 @@ func C03_closebody_roundtrip() {
 	vAssert(vEqBytes([]byte(reason), r[:want]), "body.reason")
 	c3, reason3 := ParseCloseFrameDataUnsafe(body)
 	vAssert(vAnd(c3 == code, vEqStr(reason3, reason)), "body.unsafe_same")
+	// the returned body is the caller's: what the caller does to it (masking it in place, say)
+	// does not change what the next call builds
+	for i := range body {
+		body[i] ^= 0xA5
+	}
+	again := NewCloseFrameBody(code, string(r))
+	c6, reason6 := ParseCloseFrameData(again)
+	vAssert(vAnd(c6 == code, vEqBytes([]byte(reason6), r[:want])), "body.rebuilt_after_caller_modified_the_first")
+	for i := range body {
+		body[i] ^= 0xA5
+	}
 	// short payloads parse as "no code"
 	short := vBytes("s", vChoose("sl", 2))
 	c4, r4 := ParseCloseFrameData(short)
